@@ -152,7 +152,7 @@ def run(ctx):
     edges, cedges, sim, simc = rs[0].traces, rs[1].traces, rs[2].traces, rs[3].traces
     ctx.cov["edges_emitted"] = len(edges) + len(cedges)
     ctx.log("TLC done: %d + %d edges, %d + %d simulated behaviours" % (len(edges), len(cedges), len(sim), len(simc)))
-    every = 25 if quick else 1
+    every = 25 if quick else 4
     djobs = [
         lambda: R.drive(fast, 5, edges),
         lambda: R.drive(fast, 8, sim),
